@@ -82,7 +82,41 @@ def has_lowercase_hex_form(name: str) -> bool:
 ENC_COLUMN = {"StandardEncoding": 1, "MacRomanEncoding": 2, "WinAnsiEncoding": 3, "PDFDocEncoding": 4}
 
 
+_PDFJS: Dict[str, object] = {}
+
+
+def pdfjs_tables() -> Dict[str, object]:
+    """data/c06_pdfjs_tables.json: the encoding arrays (Standard, MacRoman, WinAnsi, MacExpert, Symbol, ZapfDingbats)
+    and the two glyph lists of pdf.js 2.14.305, extracted verbatim from a copy found offline on this machine -- an
+    implementation-independent third-party source for tables pdfminer lacks or that had no cross-check."""
+    if not _PDFJS:
+        import json
+        import os
+
+        here = os.path.dirname(os.path.dirname(os.path.dirname(os.path.abspath(__file__))))
+        with open(os.path.join(here, "data", "c06_pdfjs_tables.json")) as f:
+            _PDFJS.update(json.load(f))
+    return _PDFJS
+
+
+PDFJS_ENC = {"MacExpertEncoding": "MacExpertEncoding", "Symbol": "SymbolSetEncoding", "ZapfDingbats": "ZapfDingbatsEncoding"}
+
+
+def pdfjs_names(which: str) -> Dict[int, str]:
+    arr = pdfjs_tables()["encodings"][PDFJS_ENC.get(which, which)]  # type: ignore[index]
+    return {c: n for c, n in enumerate(arr) if n}
+
+
+def zapf_table() -> Dict[str, str]:
+    """AGL specification: for the font ZapfDingbats a component is looked up in the ZapfDingbats list first."""
+    t = dict(_glyphlist())
+    t.update({k: chr(v) for k, v in pdfjs_tables()["dingbats"].items()})  # type: ignore[union-attr]
+    return t
+
+
 def latin_names(encoding: str) -> Dict[int, str]:
+    if encoding == "MacExpertEncoding":
+        return pdfjs_names(encoding)
     from pdfminer.latin_enc import ENCODING
 
     col = ENC_COLUMN[encoding]
